@@ -1,11 +1,13 @@
 import EinoV.Oracle.GraphCase
 import EinoV.Model.C04Flat
+import EinoV.Model.C04Lazy
 import EinoV.Expected.C04
 
 namespace EinoV.Oracle.C04
 open Lean EinoV EinoV.Engine EinoV.C04
 
-abbrev SV := List FlatMap
+/-- stream-mode values: chunk lists with an optional trailing error item (`Model/C04Lazy.lean`) -/
+abbrev SV := LStream FlatMap
 
 def co := flatChunkOps
 def pref := Expected.C04.packerPref
@@ -35,32 +37,68 @@ def restrictKey (k : Key) (v : FlatMap) : Option FlatMap :=
   | some kv => some [kv]
   | none => none
 
+/-- `"after": k` on a `fail` body: the natively streaming forms (Stream / Transform) return
+    their reader and fail after `k` chunks of what the node would have produced -/
+def afterOf (n : Json) : Option Nat :=
+  ((n.getObjVal? "body").toOption.bind (fun b => (b.getObjVal? "after").toOption)).bind (fun x => x.getNat?.toOption)
+
+/-- the keys a stream carries -/
+def keysOf (s : SV) : List Key := (s.chunks.flatMap (·.map (·.1))).eraseDups
+
+/-- fan-in that refuses sources sharing a key (as value mode's `mergeMap` does): used to find
+    the runs whose stream-mode result depends on the arrival order of the merged chunks -/
+def disjointOps : ValOps SV :=
+  { merge := fun ls =>
+      let ks := ls.flatMap keysOf
+      if ks.eraseDups.length == ks.length then lazyOps.merge ls else none,
+    zero := lazyOps.zero }
+
 mutual
 /-- value-mode (`i`) and stream-mode (`t`) function of a node -/
-partial def nodeActs (key : Key) (n : Json) : JE ((FlatMap → Except Err FlatMap) × (SV → Except Err SV)) := do
+partial def nodeActs (ops : ValOps SV) (key : Key) (n : Json) : JE ((FlatMap → Except Err FlatMap) × (SV → Except Err SV)) := do
   let b ← J.field n "body"
+  let inKey := (n.getObjVal? "inKey").toOption.bind (fun x => x.getStr?.toOption)
   match (← J.str b "op") with
-  | "pass" => pure (fun v => .ok v, fun s => .ok s)
+  | "pass" =>
+      match inKey with
+      | none => pure (fun v => .ok v, fun s => .ok s)
+      -- a pass-through node with `WithInputKey k` hands on input[k] (to successors that take
+      -- that value itself, `"sIn"`; in the model the value stays wrapped under its key)
+      | some ik => pure (fun v => match restrictKey ik v with
+                          | some v' => .ok v'
+                          | none => .error { cls := .user 9997 },
+                         fun s => .ok (s.mapChunks (·.filterMap (restrictKey ik))))
   | "graph" => do
-      let (gv, gs) ← parseBoth (← J.field b "g")
+      let (gv, gs) ← parseBoth ops (← J.field b "g")
       let rv := compile GraphCase.defaultStepSlack gv
       let rs := compile GraphCase.defaultStepSlack gs
-      pure (fun v => (run GraphCase.flatOps rv v).result, fun s => (run streamOps rs s).result)
-  | _ => do
+      pure (fun v => (run GraphCase.flatOps rv v).result, fun s => (run ops rs s).result)
+  | op => do
       let p ← packedOf key n
-      match (n.getObjVal? "inKey").toOption.bind (fun x => x.getStr?.toOption) with
-      | none => pure (p.i, p.t)
-      | some ik =>
-        pure (fun v => match restrictKey ik v with
-                | some v' => p.i v'
-                | none => .error { cls := .user 9997 },
-              fun s => p.t (s.filterMap (restrictKey ik)))
+      let filt : List FlatMap → List FlatMap := match inKey with
+        | none => id
+        | some ik => (·.filterMap (restrictKey ik))
+      let vi : FlatMap → Except Err FlatMap := match inKey with
+        | none => p.i
+        | some ik => fun v => match restrictKey ik v with
+            | some v' => p.i v'
+            | none => .error { cls := .user 9997 }
+      let (_, hs, _, ht) := natives n
+      match op, afterOf n with
+      | "fail", some k =>
+        if hs || ht then do
+          -- what the node streams before it breaks: the chunks of the `tag` body
+          let pt ← packedOf key (n.setObjVal! "body" (Json.mkObj [("op", "tag")]))
+          let id ← J.nat b "id"
+          pure (vi, lazyMidFail (fun xs => pt.t (filt xs)) k { cls := .user id })
+        else pure (vi, lazyNode (fun xs => p.t (filt xs)))
+      | _, _ => pure (vi, lazyNode (fun xs => p.t (filt xs)))
 
-partial def parseBoth (j : Json) : JE (GraphDef FlatMap × GraphDef SV) := do
+partial def parseBoth (ops : ValOps SV) (j : Json) : JE (GraphDef FlatMap × GraphDef SV) := do
   let mode := J.strD j "mode" "pregel"
   let acts ← (← J.arr j "nodes").mapM (fun n => do
     let k ← J.str n "key"
-    let a ← nodeActs k n
+    let a ← nodeActs ops k n
     pure (k, a))
   let edges ← (J.arrD j "edges").mapM (fun e => do
     match e with
@@ -79,11 +117,11 @@ partial def parseBoth (j : Json) : JE (GraphDef FlatMap × GraphDef SV) := do
     -- condition); a stream condition reads the first chunk only and closes its copy
     let condS : SV → Except Err (List Key) := fun s =>
       if J.boolD b "stream" false then
-        match failId, s with
+        match failId, s.chunks with
         | some id, _ => .error { cls := .branchUser id }
         | none, [] => .error { cls := .branchUser 9998 }
         | none, c :: _ => .ok (GraphCase.pickKeys table c)
-      else concat co s >>= condV
+      else lazyCond (fun cs => concat co cs >>= condV) s
     pure ((from_, ({ ends := ends, cond := condV } : Branch FlatMap)), (from_, ({ ends := ends, cond := condS } : Branch SV))))
   let mk {V} (nodes : List (Key × (V → Except Err V))) (branches : List (Key × Branch V)) : GraphDef V :=
     { dag := mode == "dag", eager := false, maxSteps := J.natD j "maxSteps" 0, nodes := nodes, edges := edges, branches := branches }
@@ -93,18 +131,27 @@ end
 def resJ (r : Except Err FlatMap) : Json := GraphCase.resultJson r
 
 /-- case: {"g": graph, "input": "text", "inChunks": [sizes]} →
-    {"invoke": Invoke(x), "stream": concat Stream(x), "collect": Collect(xs), "transform": concat Transform(xs)} -/
+    {"invoke": Invoke(x), "stream": concat Stream(x), "collect": Collect(xs), "transform": concat Transform(xs),
+     "orderDep": some fan-in of the stream-mode run merges streams that share a key (the
+     concatenation then depends on the arrival order of their chunks)} -/
 def handle (c : Json) : JE Json := do
-  let (gv, gs) ← parseBoth (← J.field c "g")
+  let (gv, gs) ← parseBoth lazyOps (← J.field c "g")
+  let (_, gd) ← parseBoth disjointOps (← J.field c "g")
   let x ← J.str c "input"
   let pat := (J.arrD c "inChunks").filterMap (fun v => v.getNat?.toOption)
   let rv := compile GraphCase.defaultStepSlack gv
   let rs := compile GraphCase.defaultStepSlack gs
   let xv : FlatMap := [("in", x)]
-  let xs : SV := flatChunk pat xv
+  let xs : SV := .ofList (flatChunk pat xv)
   let inv := (run GraphCase.flatOps rv xv).result
-  let str := (run streamOps rs [xv]).result >>= concat co
-  let tra := (run streamOps rs xs).result >>= concat co
-  pure (Json.mkObj [("invoke", resJ inv), ("stream", resJ str), ("collect", resJ tra), ("transform", resJ tra)])
+  let str := (run lazyOps rs (.ofList [xv])).result >>= lazyConcat co
+  let tra := (run lazyOps rs xs).result >>= lazyConcat co
+  let rd := compile GraphCase.defaultStepSlack gd
+  let isMerge : Except Err SV → Bool := fun r => match r with
+    | .error e => e.cls == .merge
+    | .ok _ => false
+  let orderDep := isMerge (run disjointOps rd (.ofList [xv])).result || isMerge (run disjointOps rd xs).result
+  pure (Json.mkObj [("invoke", resJ inv), ("stream", resJ str), ("collect", resJ tra), ("transform", resJ tra),
+    ("orderDep", Json.mkObj [("flag", Json.bool orderDep)])])
 
 end EinoV.Oracle.C04
